@@ -201,9 +201,11 @@ def jobs(tier, seed, prop):
         R = X.Rules()
         t, info = dyncon.emit_reload(R)
         t2 = [t_ for k, a, t_ in cf.sections if k == "text2"][0]
-        out.append(Job("dyncon.reloadPoints", pre + t2 + t + cf.text(("harness",), ["h_reloadPoints"]), "h_reloadPoints", unwind=nl * nl + 3, timeout=600, backends=[["--sat-solver", "cadical"], []],
+        nlr = 2       # larger lists exhaust the memory limit in both tiers
+        pre_r = pre.replace("#define TSG_NL %d" % nl, "#define TSG_NL %d" % nlr)
+        out.append(Job("dyncon.reloadPoints", pre_r + t2 + t + cf.text(("harness",), ["h_reloadPoints"]), "h_reloadPoints", unwind=nlr * nlr + 3, timeout=600, backends=[["--sat-solver", "cadical"], []],
                        functions=["%s:%d %s" % (f["file"], f["line"], f["name"]) for f in info["functions"]], info=info, replay=replay_reload(prop),
-                       bounded="at most %d tensors, %d stored nodes, 3 points per tensor (full unwinding with unwinding assertions)" % (nl, nl),
+                       bounded="at most %d tensors, %d stored nodes, 3 points per tensor (full unwinding with unwinding assertions)" % (nlr, nlr),
                        assumed=["generateNestedPoints / MultiIndexSet::getSlot as ghost functions (getSlot is under contract in the indexsets unit)", "std::forward_list semantics as in the shim (rule R5fl)"],
                        label="reloadPoints: loaded flags of the candidate tensors are rebuilt exactly from the stored nodes"))
     return out
